@@ -2620,6 +2620,9 @@ fn normalize_query_for_search<'a>(
     }
 
     let norm_sq = crate::simd::sum_squares_f32(query);
+    if !norm_sq.is_finite() {
+        anyhow::bail!("invalid query embedding: norm overflows f32; cannot normalize");
+    }
     if norm_sq <= f32::EPSILON {
         anyhow::bail!("embedding norm is zero; cannot normalize");
     }
